@@ -229,6 +229,17 @@ class Liar(M.MiniSSH):
         self.keys_ready = False
         self._k = self._h = None
 
+    def _dispatch(self, seq, payload):
+        # a liar does not police the client: messages the harness makes the client send during the first
+        # exchange (ELocalSend) must not stop this endpoint the way a strict server would
+        t = payload[0]
+        if t in (M.MSG_KEXINIT, M.MSG_NEWKEYS) or M.MSG_KEX_FIRST <= t <= M.MSG_KEX_LAST:
+            return super()._dispatch(seq, payload)
+        if t == M.MSG_DISCONNECT:
+            r = M.Reader(payload, 1)
+            self.peer_disconnect = (r.get_u32(), r.get_string())
+        self.inbox.append((t, payload))
+
     def _server_reply(self, r):
         self.pending_init = r
         if self.reply_plan is not None:
@@ -296,6 +307,9 @@ class LiarLink:
                         self.mini.feed(data)
                     except M.MiniSSHError as e:          # e.g. cannot decrypt what the client sent: still an observation
                         self.mini_error = e.kind
+                        if e.kind == 'no_common_algorithm':
+                            # what a server does then (the client does not check the host key algorithms itself)
+                            self.mini.raw(M.disconnect(3, 'no common algorithm'))
             else:
                 return moved
             moved = True
@@ -330,6 +344,16 @@ class LiarLink:
             if quiet >= 4:
                 return
 
+    async def wait_connected(self, fut, limit=30.0):
+        """asyncssh builds its options in an executor thread before it asks the tunnel for a connection:
+        really wait for that (wall clock only as a backstop), everything after is driven by pump()."""
+        import time as _t
+        t0 = _t.monotonic()
+        while self.conn is None and not fut.done():
+            await asyncio.sleep(0.0005)
+            if _t.monotonic() - t0 > limit:
+                raise RuntimeError('asyncssh.connect() never asked the tunnel for a connection')
+
     def server_saw(self):
         return {'service_request': sum(1 for t, _ in self.mini.inbox if t == M.MSG_SERVICE_REQUEST),
                 'userauth_request': sum(1 for t, _ in self.mini.inbox if t == M.MSG_USERAUTH_REQUEST),
@@ -348,6 +372,7 @@ async def connect_liar(*, host, port, addr, known_hosts, alias, algs, cb_key, cb
     with mock.patch('time.time', lambda: now):
         fut = asyncio.ensure_future(asyncssh.connect(host, port, tunnel=link,
                                                      **client_kw(known_hosts, alias, algs, cb_key, cb_ca, calls)))
+        await link.wait_connected(fut)
         for _ in range(60):
             await link.settle(serve=True)
             if fut.done():
@@ -374,3 +399,97 @@ async def connect_liar(*, host, port, addr, known_hosts, alias, algs, cb_key, cb
         link.conn.abort()
     await link.settle(rounds=4)
     return obs
+
+
+# --------------------------------------------------------------------------------------------------
+# engine B, scripted: the server's messages in any order, one action at a time
+
+def other_payload(t):
+    """A well-formed payload for message number t (so that only the PHASE decides what happens)."""
+    body = {
+        1: M.u32(11) + M.sstr('bye') + M.sstr(''), 2: M.sstr(''), 3: M.u32(0), 4: b'\0' + M.sstr('dbg') + M.sstr(''),
+        30: M.sstr(b'\x01' * 32), 32: M.sstr('junk'),
+        50: M.sstr(USER) + M.sstr('ssh-connection') + M.sstr('none'), 54: b'',
+        51: M.namelist(['password']) + b'\0', 52: b'', 53: M.sstr('hello\n') + M.sstr(''),
+        60: M.sstr('ssh-ed25519') + M.sstr('x'), 80: M.sstr('no-such-request@c04') + b'\1',
+        90: M.sstr('session') + M.u32(0) + M.u32(1 << 20) + M.u32(1 << 15),
+    }[t]
+    return bytes([t]) + body
+
+
+SCRIPT_ALGS = ['ssh-ed25519', 'ecdsa-sha2-nistp256', 'ssh-ed25519-cert-v01@openssh.com',
+               'ecdsa-sha2-nistp256-cert-v01@openssh.com']       # always offered in scripts: the order is the subject there
+
+LOCAL_ARGS = {
+    2: (M.sstr(''),), 4: (b'\0', M.sstr('dbg'), M.sstr('')), 5: (M.sstr('ssh-userauth'),), 6: (M.sstr('ssh-userauth'),),
+    50: (M.sstr(USER), M.sstr('ssh-connection'), M.sstr('password'), b'\0', M.sstr(PASSWORD)),
+    53: (M.sstr('banner'), M.sstr('')), 80: (M.sstr('keepalive@c04'), b'\1'),
+    90: (M.sstr('session'), M.u32(0), M.u32(1 << 20), M.u32(1 << 15)),
+}
+
+
+async def run_script(*, host, port, addr, known_hosts, alias, cb_key, cb_ca, actions, strict, ext_info,
+                     hostkey_alg, make_plan):
+    """Drive a real asyncssh client with a scripted Liar.  actions: list of
+         ('kexinit', common) | ('reply', variant, now) | ('newkeys',) | ('accept', userauth) |
+         ('other', t) | ('local', t)
+       make_plan(variant) -> kwargs of Liar.do_reply.  Returns (number of actions executed, observation)."""
+    import asyncssh
+    liar = Liar(hostkey_alg=hostkey_alg, strict=strict, ext_info=ext_info, auto=False)
+    link = LiarLink(liar, addr, port)
+    calls = []
+    fut = asyncio.ensure_future(asyncssh.connect(host, port, tunnel=link,
+                                                 **client_kw(known_hosts, alias, SCRIPT_ALGS, cb_key, cb_ca, calls)))
+    await link.wait_connected(fut)
+    await link.settle()
+    done = 0
+    kexinit_payload = None
+    for act in actions:
+        kind = act[0]
+        now = act[2] if kind == 'reply' else 1_000_000
+        with mock.patch('time.time', lambda: now):
+            if kind == 'kexinit':
+                if kexinit_payload is None:
+                    if not act[1]:
+                        liar.kex_algs = [b'no-such-kex@c04']
+                    try:
+                        liar._send_kexinit()
+                    except M.MiniSSHError as e:           # our own negotiation fails when there is nothing in common
+                        link.mini_error = e.kind
+                    kexinit_payload = liar.our_kexinit_payload
+                else:
+                    liar.raw(kexinit_payload)
+            elif kind == 'reply':
+                if liar.pending_init is not None and liar._eph is not None:
+                    liar.do_reply(**make_plan(act[1]))
+                    liar.pending_init = None
+                else:                                     # no exchange running: a reply out of the blue
+                    liar.raw(bytes([M.MSG_KEX_REPLY]) + M.sstr(make_plan(act[1])['blob']) + M.sstr(b'\x02' * 32) +
+                             M.sstr(M.sstr('ssh-ed25519') + M.sstr(b'\x03' * 64)))
+            elif kind == 'newkeys':
+                liar.do_newkeys()
+            elif kind == 'accept':
+                liar.raw(M.service_accept('ssh-userauth' if act[1] else 'ssh-connection'))
+            elif kind == 'other':
+                liar.raw(other_payload(act[1]))
+            elif kind == 'local':
+                link.conn.send_packet(act[1], *LOCAL_ARGS[act[1]])
+            await link.settle()
+        done += 1
+        if any(t is not None and t >= 50 for t in link.tap.wire):
+            break                                         # the first USERAUTH message is out: end of the model's scope
+    await link.settle()
+    closed = link.closed
+    obs = {'client_wire': link.tap.types(), 'closed': closed, 'server_saw': link.server_saw(),
+           'mini_error': link.mini_error, 'exc': None}
+    if fut.done():
+        try:
+            fut.result().abort()
+        except Exception as e:
+            obs['exc'] = type(e).__name__
+    else:
+        fut.cancel()
+    if link.conn is not None and not link.closed:
+        link.conn.abort()
+    await link.settle(rounds=4)
+    return done, obs
